@@ -1,5 +1,12 @@
 import FormulaicVerif.Proofs.C08
+import FormulaicVerif.Proofs.C08Levels
+import FormulaicVerif.Proofs.C08Hist
+import FormulaicVerif.Proofs.C08Dtypes
+import FormulaicVerif.Proofs.C08Spec
 import FormulaicVerif.Gen.KindTable
+import FormulaicVerif.Gen.DtypeTable
+import FormulaicVerif.Gen.FactorFormats
+import FormulaicVerif.Gen.Names
 /-! # C08 — Text and categorical columns are dummy-coded; the matrix is always numeric
 
 Property theorems only; helper lemmas are in `Proofs/C08.lean`. The first two theorems are decided
@@ -258,5 +265,590 @@ reach the matrix. -/
 example : build [⟨"str", .text, .numerical, .categorical, .categorical⟩] .pandas ⟨false, true, .drop⟩ 1
       [⟨"A", "str", .text [some "x"]⟩] = .ok [("A", [.str "x"])] := by
   decide
+
+/-! ## Level inference over Python scalars (`Model/PyLevels.lean`)
+
+`encode_contrasts` finds the levels of a column without declared categories with
+`astype("category")`: distinct values in first-seen order (`uniq`), a comparison sort whose
+comparison can raise (`isortE`), numbers-before-text when text is mixed in (`sortMixed`), first-seen
+order when Python cannot sort at all (`inferLevels`). -/
+section levels
+open FormulaicVerif.Model.PyLevels FormulaicVerif.Proofs.C08Levels
+
+/-- C08.5a  For a text column the inferred levels ARE the levels of C08.2a: the strictly increasing
+(code-point order) duplicate-free list of the non-null values. -/
+theorem infer_levels_text (vals : List (Option String)) :
+    inferLevels (vals.map (Option.map PyVal.str)) = (levels vals none).map PyVal.str :=
+  inferLevels_text vals
+
+/-- C08.5b  For every column content (text, integers, booleans, floats, bytes, mixed; sortable or
+not): every level is a value of the column, every non-null value equals (Python `==`) some level,
+and no two levels are equal — so every non-null row belongs to exactly one level. -/
+theorem infer_levels_complete (vals : List (Option PyVal)) :
+    (∀ l ∈ inferLevels vals, some l ∈ vals) ∧
+    (∀ v, some v ∈ vals → ∃ l ∈ inferLevels vals, pyEq l v = true) ∧
+    (inferLevels vals).Pairwise (fun a b => pyEq a b = false) := by
+  refine ⟨fun l hl => mem_inferLevels hl, ?_, ?_⟩
+  · intro v hv
+    obtain ⟨l, hl, hk⟩ := inferLevels_cover hv
+    exact ⟨l, hl, pyEq_iff.mpr hk⟩
+  · exact (inferLevels_pairwise vals).imp (fun h => pyEq_false_iff.mpr h)
+
+/-- C08.5c  The level that stands for a class of equal values (`True`, `1`, `1.0`) is the one that
+occurs first in the column: `l` is a level iff some occurrence of `l` has no equal value before it. -/
+theorem infer_levels_first_seen (vals : List (Option PyVal)) (l : PyVal) :
+    l ∈ inferLevels vals ↔ ∃ a b, vals.filterMap id = a ++ l :: b ∧ ∀ z ∈ a, pyEq z l = false := by
+  rw [(inferLevels_perm vals).mem_iff]
+  show l ∈ uniq (vals.filterMap id) ↔ _
+  rw [mem_uniq_iff]
+  constructor
+  · rintro ⟨a, b, h, ha⟩
+    exact ⟨a, b, h, fun z hz => pyEq_false_iff.mpr (ha z hz)⟩
+  · rintro ⟨a, b, h, ha⟩
+    exact ⟨a, b, h, fun z hz => pyEq_false_iff.mp (ha z hz)⟩
+
+/-- C08.5d  The modelled comparison sort (insertion sort with a comparison that may raise) fails
+exactly when the list holds two values Python refuses to compare … -/
+theorem sort_fails_iff_unorderable (l : List PyVal) :
+    isortE l = none ↔ ∃ a ∈ l, ∃ b ∈ l, pyLt a b = none :=
+  isortE_none_iff l
+
+/-- … and otherwise returns a rearrangement of its input in which no element is greater than a later one. -/
+theorem sort_sorted_perm (l s : List PyVal) (h : isortE l = some s) :
+    s.Perm l ∧ s.Pairwise (fun a b => pyLt b a = some false) :=
+  ⟨isortE_perm h, isortE_sorted h⟩
+
+/-- the column holds two non-text values that Python cannot order (a number and a bytes object) -/
+def Unsortable (vals : List (Option PyVal)) : Prop :=
+  ∃ a b, some a ∈ vals ∧ some b ∈ vals ∧ a.isStr = false ∧ b.isStr = false ∧ pyLt a b = none
+
+private theorem unsortable_iff (vals : List (Option PyVal)) : Unsortable vals ↔ MixedNumBytes (uniques vals) := by
+  have h3 : ∀ v : PyVal, cls v = 0 ∨ cls v = 1 ∨ cls v = 2 := by
+    intro v; cases v <;> simp [cls, kcls, PyVal.key]
+  have hcover : ∀ v, some v ∈ vals → ∃ y ∈ uniques vals, cls y = cls v := by
+    intro v hv
+    have hv' : v ∈ vals.filterMap id := by simpa [List.mem_filterMap] using hv
+    obtain ⟨y, hy, hk⟩ := uniq_cover hv'
+    exact ⟨y, hy, by simp [cls, hk]⟩
+  constructor
+  · rintro ⟨a, b, ha, hb, hsa, hsb, hlt⟩
+    have hne := (pyLt_none_iff a b).mp hlt
+    have hca : cls a ≠ 0 := fun h => by rw [(isStr_iff_cls a).mpr h] at hsa; cases hsa
+    have hcb : cls b ≠ 0 := fun h => by rw [(isStr_iff_cls b).mpr h] at hsb; cases hsb
+    obtain ⟨ya, hya, hka⟩ := hcover a ha
+    obtain ⟨yb, hyb, hkb⟩ := hcover b hb
+    rcases h3 a with h | h | h
+    · exact absurd h hca
+    · rcases h3 b with h' | h' | h'
+      · exact absurd h' hcb
+      · exact absurd (h.trans h'.symm) hne
+      · exact ⟨yb, hyb, ya, hya, hkb.trans h', hka.trans h⟩
+    · rcases h3 b with h' | h' | h'
+      · exact absurd h' hcb
+      · exact ⟨ya, hya, yb, hyb, hka.trans h, hkb.trans h'⟩
+      · exact absurd (h.trans h'.symm) hne
+  · rintro ⟨a, ha, b, hb, hca, hcb⟩
+    have hma : some a ∈ vals := by simpa [List.mem_filterMap] using mem_uniq_sub ha
+    have hmb : some b ∈ vals := by simpa [List.mem_filterMap] using mem_uniq_sub hb
+    refine ⟨a, b, hma, hmb, ?_, ?_, (pyLt_none_iff a b).mpr (by rw [hca, hcb]; decide)⟩
+    · cases hs : a.isStr with
+      | false => rfl
+      | true => rw [(isStr_iff_cls a).mp hs] at hca; cases hca
+    · cases hs : b.isStr with
+      | false => rfl
+      | true => rw [(isStr_iff_cls b).mp hs] at hcb; cases hcb
+
+/-- C08.5e  Order of the inferred levels, for every column content. When Python can sort: the
+non-text levels in strictly increasing order, then the text levels in strictly increasing order
+(each part a rearrangement of the first-seen distinct values of its kind). When it cannot (a number
+and a bytes object are present): the distinct values in order of first appearance. -/
+theorem infer_levels_order (vals : List (Option PyVal)) :
+    (Unsortable vals → inferLevels vals = uniques vals) ∧
+    (¬ Unsortable vals → ∃ a b, inferLevels vals = a ++ b ∧
+      a.Perm ((uniques vals).filter (fun v => !v.isStr)) ∧ b.Perm ((uniques vals).filter (fun v => v.isStr)) ∧
+      a.Pairwise (fun x y => pyLt x y = some true) ∧ b.Pairwise (fun x y => pyLt x y = some true)) := by
+  constructor
+  · intro hu
+    have := (sortMixed_none_iff _).mpr ((unsortable_iff vals).mp hu)
+    simp [inferLevels, this]
+  · intro hu
+    cases hs : sortMixed (uniques vals) with
+    | none => exact absurd ((unsortable_iff vals).mpr ((sortMixed_none_iff _).mp hs)) hu
+    | some l =>
+      obtain ⟨a, b, ha, hb, rfl⟩ := sortMixed_some hs
+      have hpair : ∀ p : PyVal → Bool, ((uniques vals).filter p).Pairwise (fun x y => x.key ≠ y.key) :=
+        fun p => (uniq_pairwise _).sublist List.filter_sublist
+      refine ⟨a, b, by simp [inferLevels, hs], isortE_perm ha, isortE_perm hb, ?_, ?_⟩
+      · exact strict_of_sorted (isortE_sorted ha)
+          (((isortE_perm ha).pairwise_iff (fun {x y} (h : x.key ≠ y.key) => Ne.symm h)).mpr (hpair _))
+      · exact strict_of_sorted (isortE_sorted hb)
+          (((isortE_perm hb).pairwise_iff (fun {x y} (h : x.key ≠ y.key) => Ne.symm h)).mpr (hpair _))
+
+/-- C08.5f  Declared categories (categorical dtype, `levels=[…]`) are used as they are, in declared order. -/
+theorem declared_levels (vals : List (Option PyVal)) (d : List PyVal) : levelsOf vals (some d) = d := rfl
+
+/-- C08.5g  `pandas.Categorical(values, categories=levels)`: with pairwise distinct levels a value is
+coded by the position of THE level it equals, and is a null (`none`) iff it equals no level. -/
+theorem codes_exact (lvls : List PyVal) (hd : lvls.Pairwise (fun a b => pyEq a b = false)) (v : PyVal) :
+    (∀ j, codeOf lvls v = some j ↔ ∃ l, lvls[j]? = some l ∧ pyEq l v = true) ∧
+    (codeOf lvls v = none ↔ ∀ l ∈ lvls, pyEq l v = false) := by
+  have hd' : lvls.Pairwise (fun a b => a.key ≠ b.key) := hd.imp (fun h => pyEq_false_iff.mp h)
+  constructor
+  · intro j
+    constructor
+    · intro h
+      obtain ⟨l, hl, hk⟩ := codeOf_some h
+      exact ⟨l, hl, pyEq_iff.mpr hk⟩
+    · rintro ⟨l, hl, hk⟩
+      exact codeOf_eq hd' hl (pyEq_iff.mp hk)
+  · rw [codeOf_none_iff]
+    constructor
+    · intro h l hl; exact pyEq_false_iff.mpr (h l hl)
+    · intro h l hl; exact pyEq_false_iff.mp (h l hl)
+
+/-- non-vacuity and corner cases of level inference, as pandas produces them: numbers before text;
+`True`/`1` and `0`/`False` are one level each, shown as the first seen; a number next to bytes cannot
+be sorted (first-seen order) -/
+example : inferLevels [some (.str "b"), some (.int 2), none, some (.str "a"), some (.int 1), some (.int 2)]
+    = [.int 1, .int 2, .str "a", .str "b"] := by decide
+example : inferLevels [some (.bool true), some (.int 1), some (.int 0), some (.bool false), some (.int 2)]
+    = [.int 0, .bool true, .int 2] := by decide
+example : inferLevels [some (.bytes "a"), some (.int 1), some (.str "x"), some (.int 1)]
+    = [.bytes "a", .int 1, .str "x"] ∧
+    Unsortable [some (.bytes "a"), some (.int 1), some (.str "x"), some (.int 1)] :=
+  ⟨by decide, .bytes "a", .int 1, by decide, by decide, rfl, rfl, rfl⟩
+
+end levels
+
+/-! ## Explicit categoricals, scaled terms, several calls on one object (`Model/Encode2.lean`) -/
+section calls
+open FormulaicVerif.Model.PyLevels FormulaicVerif.Model.Enc2 FormulaicVerif.Proofs.C08Hist
+
+/-- C08.6a  Every dummy column is the indicator of its level, for every list of pairwise distinct
+levels (inferred or declared) and every column content: column `j` is named by label `j`, has one
+cell per retained row, and the cell is 1 exactly when the row holds a value equal (Python `==`) to
+level `j` — 0 for every other value, for a null, and for a value that is not among the levels. -/
+theorem dummy_column_is_level_indicator (lvls : List PyVal) (labels : List String)
+    (hd : lvls.Pairwise (fun a b => pyEq a b = false)) (hlen : labels.length = lvls.length)
+    (rows : List (Option PyVal)) (j : Nat) (l : PyVal) (hl : lvls[j]? = some l) :
+    ∃ lab cells, (dummies labels (recode lvls rows))[j]? = some (lab, cells) ∧ labels[j]? = some lab ∧
+      cells.length = rows.length ∧
+      ∀ (i : Nat) (v : Option PyVal), rows[i]? = some v →
+        cells[i]? = some (if rowHolds l v = true then Cell.num 1 else Cell.num 0) := by
+  have hj : j < labels.length := by
+    rw [hlen]
+    exact (List.getElem?_eq_some_iff.mp hl).1
+  refine ⟨labels[j], indicatorAt j (recode lvls rows), ?_, List.getElem?_eq_getElem hj, by simp [indicatorAt, recode], ?_⟩
+  · simp [dummies, dummiesFrom_getElem?, List.getElem?_eq_getElem hj]
+  · intro i v hv
+    exact dummy_cell (hd.imp (fun h => FormulaicVerif.Proofs.C08Levels.pyEq_false_iff.mp h)) hl rows i v hv
+
+/-- C08.6b  Treatment coding with an explicit base (`C(x, contr.treatment(base=b))`): as soon as a
+column is to be emitted (at least one level, and not the single level of a reduced request) a base
+that equals no level is a `ValueError` — the call fails while THIS term is encoded. -/
+theorem treatment_base_missing_is_error (out : Output) (b : PyVal) (reduced : Bool) (lvls : List PyVal)
+    (full : List (String × List Cell)) (hne : lvls ≠ []) (h1 : ¬ (lvls.length = 1 ∧ reduced = true))
+    (hb : ∀ l ∈ lvls, pyEq l b = false) :
+    applyTreatment out (some b) reduced lvls full = .error .valueError := by
+  have hidx : ∀ (ls : List PyVal), (∀ l ∈ ls, pyEq l b = false) → indexOf b ls = none := by
+    intro ls
+    induction ls with
+    | nil => intro _; rfl
+    | cons x r ih =>
+      intro h
+      simp [indexOf, h x List.mem_cons_self, ih (fun l hl => h l (List.mem_cons_of_mem _ hl))]
+  have hcond : (lvls.isEmpty || (lvls.length == 1 && reduced)) = false := by
+    cases lvls with
+    | nil => exact absurd rfl hne
+    | cons x r =>
+      cases reduced with
+      | false => simp
+      | true =>
+        simp only [List.isEmpty_cons, Bool.and_true, Bool.false_or, beq_eq_false_iff_ne, ne_eq]
+        intro hlen; exact h1 ⟨hlen, rfl⟩
+  simp [applyTreatment, hcond, baseIndex, hidx lvls hb]
+
+/-- C08.6c  … and with a base that is a level the columns are all dummy columns (full rank) or all
+but the base column (reduced rank), in level order. -/
+theorem treatment_columns (out : Output) (base : Option PyVal) (reduced : Bool) (lvls : List PyVal)
+    (full : List (String × List Cell)) (bi : Nat) (hne : lvls ≠ []) (h1 : ¬ (lvls.length = 1 ∧ reduced = true))
+    (hb : baseIndex base lvls = some bi) :
+    applyTreatment out base reduced lvls full = .ok ⟨out, false, if reduced then dropAt bi full else full, true⟩ := by
+  have hcond : (lvls.isEmpty || (lvls.length == 1 && reduced)) = false := by
+    cases lvls with
+    | nil => exact absurd rfl hne
+    | cons x r =>
+      cases reduced with
+      | false => simp
+      | true =>
+        simp only [List.isEmpty_cons, Bool.and_true, Bool.false_or, beq_eq_false_iff_ne, ne_eq]
+        intro hlen; exact h1 ⟨hlen, rfl⟩
+  simp [applyTreatment, hcond, hb]
+
+/-- C08.7a  One materializer object, any history: with the caches reset at the start of
+`get_model_matrix` (the tree under test) every call of every sequence of calls — valid or failing,
+any output type, null policy and rank setting per call, from ANY cache content left behind by
+earlier calls — returns exactly what the same call returns on a new object. -/
+theorem history_is_fresh_builds (tbl : List KindRow) (m : Mat) (nrows : Nat) (frame : List Enc2.In)
+    (calls : List Call) (c0 : Caches) :
+    runHistory true tbl m nrows frame calls c0 = calls.map (freshMatrix tbl m nrows frame) :=
+  runHistory_fresh tbl m nrows frame calls c0
+
+/-- C08.7b  Every cell of every matrix returned by any call of any history on one object is a number
+— plain text / categorical / numeric / bool / mixed-object columns, `C(…)` with a treatment base or
+`levels=`, terms scaled by a literal, every output type, null policy and materializer — provided
+the kind table classifies text and categorical dtypes as CATEGORICAL. -/
+theorem history_cells_numeric (tbl : List KindRow) (htbl : TableOK tbl) (m : Mat) (nrows : Nat)
+    (frame : List Enc2.In) (calls : List Call) (c0 : Caches) (i : Nat) (M : List OutCol)
+    (h : (runHistory true tbl m nrows frame calls c0)[i]? = some (.ok M)) :
+    ∀ oc ∈ M, ∀ x ∈ oc.2, x.isNumber = true := by
+  rw [runHistory_fresh, List.getElem?_map] at h
+  cases hk : calls[i]? with
+  | none => simp [hk] at h
+  | some k =>
+    simp only [hk, Option.map_some, Option.some.injEq] at h
+    exact getModelMatrixOn_numeric htbl m nrows frame k Caches.empty M h
+
+/-- C08.7b for the live table (the `_is_categorical` of the current source tree) -/
+theorem history_cells_numeric_live (m : Mat) (nrows : Nat) (frame : List Enc2.In) (calls : List Call)
+    (c0 : Caches) (i : Nat) (M : List OutCol)
+    (h : (runHistory true Gen.kindTable m nrows frame calls c0)[i]? = some (.ok M)) :
+    ∀ oc ∈ M, ∀ x ∈ oc.2, x.isNumber = true :=
+  history_cells_numeric Gen.kindTable liveTableOK m nrows frame calls c0 i M h
+
+/-- C08.7c  What a call computes, without the caches: on a new object `get_model_matrix` IS the
+cache-free reference `buildSpec` (evaluate and null-check every factor in formula order, encode every
+term from its evaluated factor, put the intercept in front) — for every frame, route, output, null
+policy and formula in which no two terms share a factor (the parser guarantees that: a second term
+over the same factors is the same term or a syntax error). -/
+theorem fresh_matrix_is_spec (tbl : List KindRow) (m : Mat) (nrows : Nat) (frame : List Enc2.In) (k : Call)
+    (hnd : (k.terms.map (·.fid)).Nodup) : freshMatrix tbl m nrows frame k = buildSpec tbl m nrows frame k :=
+  FormulaicVerif.Proofs.C08Spec.freshMatrix_eq_spec tbl m nrows frame k hnd
+
+/-- C08.7d  Hence every call of every history on one object, from any cache content, returns the
+cache-free reference of that call alone. -/
+theorem history_is_spec (tbl : List KindRow) (m : Mat) (nrows : Nat) (frame : List Enc2.In)
+    (calls : List Call) (c0 : Caches) (hnd : ∀ k ∈ calls, (k.terms.map (·.fid)).Nodup) :
+    runHistory true tbl m nrows frame calls c0 = calls.map (buildSpec tbl m nrows frame) := by
+  rw [runHistory_fresh]
+  apply List.map_congr_left
+  intro k hk
+  exact fresh_matrix_is_spec tbl m nrows frame k (hnd k hk)
+
+/-- C08.6d  A numeric (non-categorical) factor passes through: one column, named after the factor,
+holding the retained input values (times the literal scale of the term, if any). -/
+theorem numeric_term_passthrough (out : Output) (t : Term) (ef : EvalF) (mask : List Bool) (reduced : Bool)
+    (hnum : ef.categorical = false) :
+    (encodeFactor out t.fid ef mask reduced).map (finishTerm out t reduced) =
+      .ok [(t.expr, match t.scale with
+        | none => (applyMask mask ef.vals).map numCell
+        | some s => ((applyMask mask ef.vals).map numCell).map (scaleCell s.val))] := by
+  simp only [encodeFactor, hnum, Bool.false_eq_true, if_false, Except.map, finishTerm, Bool.false_and,
+    List.map_cons, List.map_nil, if_true]
+  cases t.scale <;> rfl
+
+/-- C08.6e  A categorical factor without `C(…)` (a text column, a categorical dtype, an object column):
+its columns are the dummy columns of the levels of the RETAINED rows — inferred (C08.5) or declared —
+named `name[level]`, or `name[T.level]` without the first level on a reduced request. -/
+theorem plain_categorical_encoding (out : Output) (t : Term) (ef : EvalF) (mask : List Bool) (reduced : Bool)
+    (labels : List String) (hcat : ef.categorical = true) (hplain : t.fid.isC = false) (hnolv : t.fid.lvls = none)
+    (hlab : labelsOf (levelsOf (applyMask mask ef.vals) ef.declared) = .ok labels)
+    (hdup : declaredDup ef.declared = false) :
+    (encodeFactor out t.fid ef mask reduced).map (finishTerm out t reduced) =
+      .ok (((if reduced then List.drop 1 else id)
+        (dummies labels (recode (levelsOf (applyMask mask ef.vals) ef.declared) (applyMask mask ef.vals)))).map
+        (fun fld => (if fld.1 = "" then t.expr else fmtName t.expr fld.1 reduced,
+          match t.scale with | none => fld.2 | some s => fld.2.map (scaleCell s.val)))) := by
+  simp only [encodeFactor, hcat, if_true, encodeCategorical, declaredFor, hnolv, hdup, Bool.false_eq_true, if_false,
+    hlab, hplain, Except.map, finishTerm, Bool.true_and]
+  cases reduced
+  · simp only [Bool.false_eq_true, if_false, id_eq, List.map_inj_left, Except.ok.injEq]
+    intro a _; rfl
+  · simp
+    rfl
+
+private theorem labelsOf_map_str : ∀ (l : List String), labelsOf (l.map PyVal.str) = .ok l
+  | [] => rfl
+  | s :: r => by simp [labelsOf, pyLabel, labelsOf_map_str r]
+
+private theorem applyMask_map {α β : Type} (f : α → β) : ∀ (mask : List Bool) (l : List α),
+    applyMask mask (l.map f) = (applyMask mask l).map f
+  | [], _ => by simp [applyMask]
+  | _ :: _, [] => by
+    rename_i b m
+    cases b <;> simp [applyMask]
+  | true :: m, x :: r => by simp [applyMask, applyMask_map f m r]
+  | false :: m, x :: r => by simp [applyMask, applyMask_map f m r]
+
+/-- C08.6h  The first clause of the property on the extended model, for ALL text columns, row masks,
+routes and outputs: a plain text column (no declared categories) is encoded as one indicator column
+per level, the levels being THE strictly increasing duplicate-free list of the retained non-null
+strings (`Encode.levels`, C08.2a) and the labels those strings — `name[level]` for every level, or
+`name[T.level]` without the first one on a reduced request (C08.6e), each column the indicator of its
+level (C08.6a). -/
+theorem text_term_sorted_indicators (out : Output) (t : Term) (strs : List (Option String)) (mask : List Bool)
+    (reduced : Bool) (hplain : t.fid.isC = false) (hnolv : t.fid.lvls = none) :
+    (encodeFactor out t.fid ⟨true, none, strs.map (Option.map PyVal.str)⟩ mask reduced).map (finishTerm out t reduced) =
+      .ok (((if reduced then List.drop 1 else id)
+        (dummies (levels (applyMask mask strs) none)
+          (recode ((levels (applyMask mask strs) none).map PyVal.str) ((applyMask mask strs).map (Option.map PyVal.str))))).map
+        (fun fld => (if fld.1 = "" then t.expr else fmtName t.expr fld.1 reduced,
+          match t.scale with | none => fld.2 | some s => fld.2.map (scaleCell s.val)))) := by
+  have hrows : applyMask mask (strs.map (Option.map PyVal.str)) = (applyMask mask strs).map (Option.map PyVal.str) :=
+    applyMask_map _ mask strs
+  have hlv : levelsOf (applyMask mask (strs.map (Option.map PyVal.str))) none =
+      (levels (applyMask mask strs) none).map PyVal.str := by
+    rw [hrows]; exact infer_levels_text _
+  have := plain_categorical_encoding out t ⟨true, none, strs.map (Option.map PyVal.str)⟩ mask reduced
+    (levels (applyMask mask strs) none) rfl hplain hnolv (by rw [hlv]; exact labelsOf_map_str _) rfl
+  rw [this]
+  show Except.ok (List.map _ ((if reduced = true then List.drop 1 else id)
+    (dummies _ (recode (levelsOf (applyMask mask (strs.map (Option.map PyVal.str))) none)
+      (applyMask mask (strs.map (Option.map PyVal.str))))))) = _
+  rw [hlv, hrows]
+
+/-- C08.6i  User-given contrasts (`C(x, [[…], …])`, `C(x, {name: weights, …})`): every cell of contrast
+column `c` is the weight the user wrote for the row's level in that contrast, and 0 for a row without a
+level — a number in every case; weights written for another number of levels than the data has are a
+`ValueError`, never a reshaped matrix. -/
+theorem custom_contrast_cells (cu : Custom) (c : Nat) (codes : List (Option Nat)) (cells : List Cell)
+    (h : customColumn cu c codes = some cells) :
+    cells.length = codes.length ∧
+    ∀ (i : Nat) (code : Option Nat), codes[i]? = some code → ∃ q, codeWeight cu c code = some q ∧ cells[i]? = some (Cell.num q) := by
+  induction codes generalizing cells with
+  | nil =>
+    simp only [customColumn, Option.some.injEq] at h
+    subst h
+    exact ⟨rfl, fun i code hi => by simp at hi⟩
+  | cons code0 r ih =>
+    simp only [customColumn] at h
+    cases hq : codeWeight cu c code0 with
+    | none => simp [hq] at h
+    | some q =>
+      cases hr : customColumn cu c r with
+      | none => simp [hq, hr] at h
+      | some rest =>
+        simp only [hq, hr, Option.some.injEq] at h
+        subst h
+        obtain ⟨hlen, hcells⟩ := ih rest hr
+        refine ⟨by simp [hlen], ?_⟩
+        intro i code hi
+        cases i with
+        | zero =>
+          simp only [List.getElem?_cons_zero, Option.some.injEq] at hi
+          subst hi
+          exact ⟨q, hq, rfl⟩
+        | succ j =>
+          simp only [List.getElem?_cons_succ] at hi
+          simpa using hcells j code hi
+
+theorem custom_shape_mismatch_is_error (out : Output) (cu : Custom) (reduced : Bool) (lvls : List PyVal)
+    (codes : List (Option Nat)) (nl nc : Nat) (hs : cu.shape = some (nl, nc)) (hne : lvls ≠ [])
+    (h1 : ¬ (lvls.length = 1 ∧ reduced = true)) (hmis : nl ≠ lvls.length) :
+    applyCustom out cu reduced lvls codes = .error .valueError := by
+  have hcond : (lvls.isEmpty || (lvls.length == 1 && reduced)) = false := by
+    cases lvls with
+    | nil => exact absurd rfl hne
+    | cons x r =>
+      cases reduced with
+      | false => simp
+      | true =>
+        simp only [List.isEmpty_cons, Bool.and_true, Bool.false_or, beq_eq_false_iff_ne, ne_eq]
+        intro hlen; exact h1 ⟨hlen, rfl⟩
+  simp [applyCustom, hs, hcond, hmis]
+
+/-- the hypotheses hold and the weights land where the user put them: three levels, two contrasts -/
+example : applyCustom .pandas (.matrix [[1, 0], [0, 1], [-1, -1]]) false [.str "u", .str "v", .str "w"]
+      [some 0, some 2, none, some 1] =
+    .ok ⟨.pandas, false, [("1", [.num 1, .num (-1), .num 0, .num 0]), ("2", [.num 0, .num (-1), .num 0, .num 1])], false⟩ ∧
+    (Custom.matrix [[1, 0], [0, 1]]).shape = some (2, 2) := by decide
+
+/-- C08.6j  Kind inference inside a call: a column of a text or categorical dtype — referenced plainly
+or through `C(…)` — evaluates to a CATEGORICAL factor over its declared categories and values, for
+every route, whenever the kind table classifies text and categorical dtypes as CATEGORICAL (C08.1a for
+the live table). Together with C08.6h/6e/6a this is the first clause of the property end to end. -/
+theorem text_or_categorical_column_is_categorical_factor (tbl : List KindRow) (htbl : TableOK tbl) (m : Mat)
+    (frame : List Enc2.In) (f : FactorId) (c : Enc2.In) (r : KindRow) (hc : findCol frame f.name = some c)
+    (hr : lookupRow tbl c.dtype = some r) (hfam : r.family = .text ∨ r.family = .categorical)
+    (hok : c.familyOK r = true) :
+    evalFactor tbl m frame f = .ok ⟨true, c.declared, c.vals⟩ := by
+  have hk := htbl r (List.mem_of_find?_eq_some hr) hfam m
+  cases hC : f.isC <;> simp [evalFactor, hc, hr, hok, hC, hk]
+
+/-- C08.6k  … and a column of a numeric or bool dtype that the table calls NUMERICAL evaluates, when
+referenced plainly, to a numerical factor over its values (which then pass through, C08.6d). -/
+theorem numeric_column_is_numerical_factor (tbl : List KindRow) (m : Mat) (frame : List Enc2.In) (f : FactorId)
+    (c : Enc2.In) (r : KindRow) (hc : findCol frame f.name = some c) (hr : lookupRow tbl c.dtype = some r)
+    (hk : kindFor r m = .numerical) (hok : c.familyOK r = true) (hplain : f.isC = false) :
+    evalFactor tbl m frame f = .ok ⟨false, c.declared, c.vals⟩ := by
+  simp [evalFactor, hc, hr, hok, hplain, hk]
+
+/-- the hypotheses of C08.6j/k hold for the `str` and `float64` columns of the example frame with the live table -/
+example : (lookupRow Gen.kindTable "str").map (fun r => (r.family,
+    (⟨"t", "str", none, [some (.str "x"), none]⟩ : Enc2.In).familyOK r)) = some (.text, true) := by decide
+example : (lookupRow Gen.kindTable "float64").map (fun r => (kindFor r .pandas, kindFor r .narwhals, kindFor r .arrow,
+    (⟨"a", "float64", none, [some (.flt 1), none]⟩ : Enc2.In).familyOK r)) =
+    some (.numerical, .numerical, .numerical, true) := by decide
+
+/-- C08.6f  A literal in front of a term multiplies every cell of the term's columns and nothing else. -/
+theorem scale_multiplies_cells (out : Output) (t : Term) (s : Scale) (reduced : Bool) (enc : Enc) :
+    finishTerm out { t with scale := some s } reduced enc =
+      (finishTerm out { t with scale := none } reduced enc).map (fun oc => (oc.1, oc.2.map (scaleCell s.val))) := by
+  simp [finishTerm, List.map_map, Function.comp_def]
+
+/-- C08.6g  With an intercept the first column of the matrix is `Intercept`: a one for every retained row. -/
+theorem intercept_column (tbl : List KindRow) (m : Mat) (nrows : Nat) (frame : List Enc2.In) (k : Call)
+    (M : List OutCol) (hi : k.intercept = true) (h : buildSpec tbl m nrows frame k = .ok M) :
+    ∃ nulls, evalAllSpec tbl m frame k.na (k.terms.map (·.fid)) (List.replicate nrows false) = .ok nulls ∧
+      M.head? = some ("Intercept", List.replicate ((nulls.map (!·)).count true) (Cell.num 1)) := by
+  unfold buildSpec at h
+  cases h1 : evalAllSpec tbl m frame k.na (k.terms.map (·.fid)) (List.replicate nrows false) with
+  | error e => simp [h1] at h
+  | ok nulls =>
+    simp only [h1, hi, if_true] at h
+    cases h2 : encodeTermsSpec tbl m frame k.out (nulls.map (!·)) k.efr true k.terms with
+    | error e => simp [h2] at h
+    | ok body =>
+      simp only [h2] at h
+      have := combine_ok h
+      subst this
+      exact ⟨nulls, rfl, rfl⟩
+
+/-! the fault-then-reuse situation, concretely: a frame with two text columns and a float column; the
+first call (sparse output, rows with a null dropped) fails with `ValueError` while its THIRD term
+`C(b, contr.treatment(base='nope'))` is encoded — after `t` and `a` were encoded and cached; the
+second call on the same object asks for a pandas matrix and keeps the null rows. -/
+private def exFrame (third : Option PyVal) : List Enc2.In :=
+  [⟨"t", "str", none, [some (.str "x"), some (.str "y"), third, some (.str "x")]⟩,
+   ⟨"b", "str", none, [some (.str "u"), some (.str "v"), some (.str "u"), some (.str "w")]⟩,
+   ⟨"a", "float64", none, [some (.flt 1), some (.flt 2), some (.flt 3), some (.flt 4)]⟩]
+private def exT : Enc2.Term := ⟨"t", none, ⟨"t", false, none, none, none⟩⟩
+private def exA : Enc2.Term := ⟨"a", none, ⟨"a", false, none, none, none⟩⟩
+private def exB : Enc2.Term := ⟨"b", none, ⟨"b", false, none, none, none⟩⟩
+private def exBad : Enc2.Term := ⟨"C(b, contr.treatment(base='nope'))", none, ⟨"b", true, some (.str "nope"), none, none⟩⟩
+private def exFail : Call := ⟨true, true, .drop, .sparse, [exT, exA, exBad]⟩
+private def exNext (na : NA) : Call := ⟨true, true, na, .pandas, [exT, exA, exB]⟩
+
+/-- non-vacuity of C08.7a/b: the failing call leaves two encoded factors in the object's cache, and the
+next call still returns the matrix of a new object (4 rows, the null row of `t` all zero) -/
+example :
+    (getModelMatrixOn true Gen.kindTable .pandas 4 (exFrame none) exFail Caches.empty).2 = .error .valueError ∧
+    (getModelMatrixOn true Gen.kindTable .pandas 4 (exFrame none) exFail Caches.empty).1.encodedCache.length = 2 ∧
+    runHistory true Gen.kindTable .pandas 4 (exFrame none) [exFail, exNext .ignore] Caches.empty =
+      [.error .valueError,
+       .ok [("Intercept", [.num 1, .num 1, .num 1, .num 1]),
+            ("t[T.y]", [.num 0, .num 1, .num 0, .num 0]),
+            ("a", [.num 1, .num 2, .num 3, .num 4]),
+            ("b[T.v]", [.num 0, .num 1, .num 0, .num 0]), ("b[T.w]", [.num 0, .num 0, .num 0, .num 1])]] := by
+  decide
+
+/-- the hypotheses of C08.7c/d, C08.6b, C08.6a/5g and C08.6e hold in this example: no two terms share a
+factor; the base `'nope'` equals no level of `b`; `0` and `True` are distinct levels; the retained rows
+of `t` have the printable levels `x`, `y` -/
+example : (exFail.terms.map (·.fid)).Nodup ∧ ((exNext .ignore).terms.map (·.fid)).Nodup := by decide
+example : ∀ l ∈ [PyVal.str "u", .str "v", .str "w"], pyEq l (.str "nope") = false := by decide
+example : [PyVal.int 0, .bool true, .int 2].Pairwise (fun a b => pyEq a b = false) := by decide
+example : labelsOf (levelsOf (applyMask [true, true, false, true] [some (.str "x"), some (.str "y"), none, some (.str "x")]) none)
+    = .ok ["x", "y"] ∧ declaredDup none = false := by decide
+
+/-- negative witness: the reset is what the theorems rest on. Without it (`reset = false`) the second
+call is handed the columns the failed call built — for 3 rows instead of 4 (a `ValueError` from
+pandas: lengths differ) … -/
+example : runHistory false Gen.kindTable .pandas 4 (exFrame none) [exFail, exNext .ignore] Caches.empty =
+    [.error .valueError, .error .shapeError] := by
+  decide
+
+/-- … or, when no row is dropped, sparse column objects inside a pandas frame: cells that are not numbers
+(observed on the tree with the reset removed: `<Compressed Sparse Row sparse matrix …>` in an object column) -/
+example :
+    (runHistory false Gen.kindTable .pandas 4 (exFrame (some (.str "y"))) [exFail, exNext .drop] Caches.empty)[1]? =
+      some (.ok [("Intercept", [.num 1, .num 1, .num 1, .num 1]),
+        ("t[T.y]", [foreignCell, foreignCell, foreignCell, foreignCell]),
+        ("a", [foreignCell, foreignCell, foreignCell, foreignCell]),
+        ("b[T.v]", [.num 0, .num 1, .num 0, .num 0]), ("b[T.w]", [.num 0, .num 0, .num 0, .num 1])]) ∧
+    foreignCell.isNumber = false := by
+  decide
+
+end calls
+
+/-! ## Hand-written constants of the model against the live package -/
+section live
+open FormulaicVerif.Model.Enc2
+
+/-- C08.9a  The column-name templates of the live package (`FactorValuesMetadata.format`,
+`TreatmentContrasts().get_factor_format(…)` for full and reduced rank; regenerated on every run) give,
+for EVERY factor name and level label, exactly the names the model writes (`fmtName`): `name[level]`
+and `name[T.level]`. -/
+theorem live_factor_formats (n f : String) :
+    applyFormat Gen.defaultFactorFormat n f = fmtName n f false ∧
+    applyFormat Gen.treatmentFormatFull n f = fmtName n f false ∧
+    applyFormat Gen.treatmentFormatReduced n f = fmtName n f true := by
+  have h : ∀ X : String, "[" ++ ("T" ++ ("." ++ X)) = "[T." ++ X := by
+    intro X
+    rw [← String.append_assoc, ← String.append_assoc]
+    congr 1
+  refine ⟨?_, ?_, ?_⟩
+  · simp [applyFormat, Gen.defaultFactorFormat, fmtName, String.append_assoc]
+  · simp [applyFormat, Gen.treatmentFormatFull, fmtName, String.append_assoc]
+  · simp [applyFormat, Gen.treatmentFormatReduced, fmtName, String.append_assoc, h]
+
+/-- C08.9b  "Every output type and materializer": the output types the live materializers register are
+exactly the four the model distinguishes, and the registered materializers are the two whose routes
+the kind and dtype tables probe (`decide` over `Gen.materializerOutputs`). -/
+theorem live_outputs_modelled :
+    (∀ p ∈ Gen.materializerOutputs, ∀ o ∈ p.2, o ∈ [Output.pandas.name, Output.numpy.name, Output.sparse.name, Output.narwhals.name]) ∧
+    Gen.materializerOutputs.map (·.1) = ["narwhals", "pandas"] := by
+  decide
+
+end live
+
+/-! ## The dtype of the returned container (`Model/Dtypes.lean`, `Model/EncodeDt.lean`, `Gen/DtypeTable.lean`) -/
+section dtypes
+open FormulaicVerif.Model.Enc2 FormulaicVerif.Model.Dtypes FormulaicVerif.Proofs.C08Dtypes
+
+set_option maxRecDepth 200000 in
+/-- C08.8a  The dtype tables probed on the current tree — the matrix of `0 + A` for one probe series
+per dtype label x {pandas, narwhals on pandas, narwhals on pyarrow} x {pandas, numpy, sparse,
+narwhals}; a literal scale; the intercept; two columns stacked by the live `_combine_columns` —
+hold integer and floating-point dtypes only: no `object`, no `bool`, no failed probe; scaling or
+stacking numeric dtypes gives a numeric dtype. (`decide` over the generated tables, re-decided on
+every run.) -/
+theorem live_dtype_tables_numeric : tablesNumeric Gen.dtypeTables = true := by
+  decide
+
+/-- C08.8b  For ALL frames, formulas of main effects (plain, `C(…)`, scaled), null policies, routes
+and output types: every dtype the model reports for the returned matrix — one per column for
+`pandas` / `narwhals` output, the array dtype for `numpy` / `sparse` output, obtained by folding the
+stacking table over any number of columns — is an integer or floating-point dtype, provided the
+tables pass the check of C08.8a. -/
+theorem matrix_dtypes_numeric (T : Tables) (hT : tablesNumeric T = true) (tbl : List KindRow) (m : Mat)
+    (nrows : Nat) (frame : List Enc2.In) (k : Call) (ds : List NDt)
+    (h : callDtypes T tbl m nrows frame k = .ok ds) : ∀ d ∈ ds, d.isNumeric = true :=
+  callDtypes_numeric (tablesOK_of_check hT) tbl m nrows frame k ds h
+
+/-- C08.8b for the tables and the kind table of the current tree -/
+theorem matrix_dtypes_numeric_live (m : Mat) (nrows : Nat) (frame : List Enc2.In) (k : Call) (ds : List NDt)
+    (h : callDtypes Gen.dtypeTables Gen.kindTable m nrows frame k = .ok ds) : ∀ d ∈ ds, d.isNumeric = true :=
+  matrix_dtypes_numeric Gen.dtypeTables live_dtype_tables_numeric Gen.kindTable m nrows frame k ds h
+
+set_option maxRecDepth 100000 in
+/-- non-vacuity of C08.8b: a pandas frame from a `str` text column, a float column and a second text column:
+float64 intercept and float column, int64 dummy columns; the same matrix as a sparse matrix is float64 -/
+example :
+    callDtypes Gen.dtypeTables Gen.kindTable .pandas 3
+      [⟨"t", "str", none, [some (.str "x"), some (.str "y"), some (.str "x")]⟩, ⟨"a", "float64", none, [some (.flt 1), some (.flt 2), some (.flt 3)]⟩]
+      ⟨true, true, .drop, .pandas, [⟨"t", none, ⟨"t", false, none, none, none⟩⟩, ⟨"a", none, ⟨"a", false, none, none, none⟩⟩]⟩
+      = .ok [.float64, .int64, .float64] ∧
+    callDtypes Gen.dtypeTables Gen.kindTable .arrow 3
+      [⟨"t", "str", none, [some (.str "x"), some (.str "y"), some (.str "x")]⟩, ⟨"a", "float64", none, [some (.flt 1), some (.flt 2), some (.flt 3)]⟩]
+      ⟨true, true, .drop, .sparse, [⟨"t", none, ⟨"t", false, none, none, none⟩⟩, ⟨"a", none, ⟨"a", false, none, none, none⟩⟩]⟩
+      = .ok [.float64] := by
+  decide
+
+/-- negative witness: the check of C08.8a is not decoration — a table in which a dummy column comes out as
+`object` (what the tree did for `string[python]` text with `output="numpy"` before the repair) fails it -/
+example : tablesNumeric ⟨[("string[python]", "pandas", "numpy", .object)], [], [], []⟩ = false := by decide
+
+end dtypes
 
 end FormulaicVerif.Props.C08
